@@ -1,4 +1,5 @@
 import PcbV.Lemmas.VideoWalk
+import PcbV.Lemmas.VideoT6
 /-
   C34 — video memory reflects and controls the screen content.
 
@@ -7,10 +8,10 @@ import PcbV.Lemmas.VideoWalk
   `PcbV.Gen.Modes.table` regenerated from the current source.  `np` (number of pages), addresses,
   lengths, screen contents and plane registers are universally quantified.
 
-  Gap (named in the `_partial` theorems): for the Tandy-6 mapper (SCREEN 6 of Tandy/PCjr) the walk of
-  each colour plane is proved bytewise (`walk_is_bytewise`, factor 2) but the recombination of the two
-  planes into the interleaved byte array (`getT6`/`setT6` = byte loop) is not proved; it is covered by
-  the correspondence run and by the `example`s below.
+  No mode of the table is excluded any more: the statements that used to exclude the Tandy-6 mapper
+  (SCREEN 6 of Tandy/PCjr; two colour planes walked with factor 2 and recombined into an interleaved byte
+  array) are proved for it too (`PcbV.Lemmas.VideoT6`); the `_partial` theorems are kept as corollaries of
+  the full-strength theorems of the same name without the suffix.
 -/
 namespace PcbV.C34
 open PcbV PcbV.VideoMem PcbV.Gen.Modes
@@ -39,7 +40,7 @@ theorem kind_cases (m : Mode) (hm : m ∈ table) : m.kind = 0 ∨ m.kind = 1 ∨
   exact this m hm
 
 /-- BSAVE-style block read = reading the bytes one at a time; every text, CGA-packed and EGA-planar mode.
-    Partial: Tandy-6 (kind 3) excluded, see the header. -/
+    (Superseded by `block_read_eq_bytewise`, which also covers Tandy-6.) -/
 theorem block_read_eq_bytewise_partial (m : Mode) (hm : m ∈ table) (hk : m.kind ≠ 3) (np : Nat) (s : St)
     (addr n : Nat) : getMemory m np s addr n = bytewiseGet m np s addr n := by
   rcases kind_cases m hm with h | h | h | h
@@ -49,7 +50,7 @@ theorem block_read_eq_bytewise_partial (m : Mode) (hm : m ∈ table) (hk : m.kin
   · exact absurd h hk
 
 /-- BLOAD-style block write = writing the bytes one at a time (same final screen and registers).
-    Partial: Tandy-6 (kind 3) excluded, see the header. -/
+    (Superseded by `block_write_eq_bytewise`, which also covers Tandy-6.) -/
 theorem block_write_eq_bytewise_partial (m : Mode) (hm : m ∈ table) (hk : m.kind ≠ 3) (np : Nat) (s : St)
     (addr : Nat) (bytes : List Nat) : setMemory m np s addr bytes = bytewiseSet m np s addr bytes := by
   rcases kind_cases m hm with h | h | h | h
@@ -90,7 +91,7 @@ theorem peek_encodes_text (m : Mode) (hk : m.kind = 0) (np : Nat) (s : St) (a : 
     peek m np s a = s.pix (getCoords m a).page (getCoords m a).y (getCoords m a).x := by
   rw [peek_text m hk, if_pos hok]
 
-/-- a byte that backs no screen content reads as 0 (all but Tandy-6) -/
+/-- a byte that backs no screen content reads as 0 (all but Tandy-6; superseded by `peek_unmapped`) -/
 theorem peek_unmapped_partial (m : Mode) (hm : m ∈ table) (hk : m.kind ≠ 3) (np : Nat) (s : St) (a : Nat)
     (hok : coordOk m np (getCoords m a) = false) : peek m np s a = 0 := by
   rcases kind_cases m hm with h | h | h | h
@@ -122,7 +123,8 @@ theorem poke_then_peek_textmode (m : Mode) (hk : m.kind = 0) (np : Nat) (s : St)
 def coverWidth (m : Mode) : Nat := if m.kind = 0 then 1 else ppuOf m
 
 /-- A POKE leaves every pixel / text byte outside the group the address covers unchanged, and leaves the
-    whole screen unchanged when the address backs nothing (all but Tandy-6). -/
+    whole screen unchanged when the address backs nothing (all but Tandy-6; superseded by
+    `poke_changes_only_covered`). -/
 theorem poke_changes_only_covered_partial (m : Mode) (hm : m ∈ table) (hk : m.kind ≠ 3) (np : Nat) (s : St)
     (a v : Nat) (p : Int) (y x : Nat)
     (hout : coordOk m np (getCoords m a) = false ∨
@@ -174,6 +176,86 @@ theorem poke_changes_only_covered_partial (m : Mode) (hm : m ∈ table) (hk : m.
           exact ⟨hh.1, hh.2.1, hh.2.2.1, hh.2.2.2⟩
       · rfl
   · exact absurd h hk
+
+/-! ### full-strength versions (every mode of the table, Tandy-6 included) -/
+
+/-- BSAVE-style block read = reading the bytes one at a time, in every mode of the table -/
+theorem block_read_eq_bytewise (m : Mode) (hm : m ∈ table) (np : Nat) (s : St) (addr n : Nat) :
+    getMemory m np s addr n = bytewiseGet m np s addr n := by
+  rcases kind_cases m hm with h | h | h | h
+  · exact block_read_text m h np s addr n
+  · exact block_read_cga m (table_wf m hm) h np s addr n
+  · exact block_read_ega m (table_wf m hm) h np s addr n
+  · exact block_read_t6 m (table_wf m hm) h np s addr n
+
+/-- BLOAD-style block write = writing the bytes one at a time, in every mode of the table -/
+theorem block_write_eq_bytewise (m : Mode) (hm : m ∈ table) (np : Nat) (s : St) (addr : Nat) (bytes : List Nat) :
+    setMemory m np s addr bytes = bytewiseSet m np s addr bytes := by
+  rcases kind_cases m hm with h | h | h | h
+  · exact block_write_text m h np s addr bytes
+  · exact block_write_cga m (table_wf m hm) h np s addr bytes
+  · exact block_write_ega m (table_wf m hm) h np s addr bytes
+  · exact block_write_t6 m (table_wf m hm) h np s addr bytes
+
+/-- a byte that backs no screen content reads as 0, in every mode of the table -/
+theorem peek_unmapped (m : Mode) (hm : m ∈ table) (np : Nat) (s : St) (a : Nat)
+    (hok : coordOk m np (getCoords m a) = false) : peek m np s a = 0 := by
+  rcases kind_cases m hm with h | h | h | h
+  · rw [peek_text m h]; simp [hok]
+  · rw [peek_cga m (table_wf m hm) h]; simp [hok]
+  · rw [peek_ega m (table_wf m hm) h]; simp [hok]
+  · rw [peek_t6 m (table_wf m hm) h]; simp [t6Byte, hok]
+
+/-- A POKE leaves everything outside the group the address covers unchanged, and the whole screen unchanged
+    when the address backs nothing — every mode of the table. -/
+theorem poke_changes_only_covered (m : Mode) (hm : m ∈ table) (np : Nat) (s : St)
+    (a v : Nat) (p : Int) (y x : Nat)
+    (hout : coordOk m np (getCoords m a) = false ∨
+      ¬ (p = (getCoords m a).page ∧ y = (getCoords m a).y ∧ (getCoords m a).x ≤ x ∧
+          x < (getCoords m a).x + coverWidth m)) :
+    (poke m np s a v).pix p y x = s.pix p y x := by
+  by_cases hk : m.kind = 3
+  · rw [poke_t6 m (table_wf m hm) hk]
+    simp only
+    split
+    · next hok =>
+      rcases hout with ho | ho
+      · rw [hok] at ho; cases ho
+      · unfold writeT6
+        apply setGroup_out
+        intro hh
+        apply ho
+        have : coverWidth m = 8 := by simp [coverWidth, ppuOf, hk]
+        rw [this]
+        exact hh
+    · rfl
+  · exact poke_changes_only_covered_partial m hm hk np s a v p y x hout
+
+/-- Tandy-6: bit t of PEEK(a) is bit (a mod 2) of the attribute of pixel (x+t, y): even addresses hold
+    plane 0, odd addresses plane 1 -/
+theorem peek_encodes_pixels_tandy6 (m : Mode) (hm : m ∈ table) (hk : m.kind = 3) (np : Nat) (s : St) (a t : Nat)
+    (hok : coordOk m np (getCoords m a) = true) (ht : t < 8) :
+    unpackPix 1 8 (peek m np s a) t =
+      s.pix (getCoords m a).page (getCoords m a).y ((getCoords m a).x + t) / 2 ^ (a % 2) % 2 := by
+  rw [peek_t6 m (table_wf m hm) hk]
+  unfold t6Byte
+  rw [if_pos hok]
+  exact unpack_pack 1 8 (by decide) _ t ht
+
+/-- Tandy-6: the even byte and the following odd byte cover the same 8 pixels (so, with the previous
+    theorem, the byte pair is exactly the two low attribute bits of those pixels) -/
+theorem tandy6_pair_same_pixels (m : Mode) (hm : m ∈ table) (hk : m.kind = 3) (a : Nat) (ha : a % 2 = 0) :
+    getCoords m (a + 1) = getCoords m a := t6_pair_coords m (table_wf m hm) hk a ha
+
+theorem poke_then_peek_tandy6 (m : Mode) (hm : m ∈ table) (hk : m.kind = 3) (np : Nat) (s : St) (a v : Nat)
+    (hv : v < 256) (hok : coordOk m np (getCoords m a) = true) :
+    peek m np (poke m np s a v) a = v := poke_then_peek_t6 m (table_wf m hm) hk np s a v hv hok
+
+/-- Tandy-6: a POKE to one byte of a pair does not change what the other byte of the pair reads -/
+theorem tandy6_planes_independent (m : Mode) (hm : m ∈ table) (hk : m.kind = 3) (np : Nat) (s : St)
+    (a a' v : Nat) (hc : getCoords m a' = getCoords m a) (hpar : a' % 2 ≠ a % 2) :
+    peek m np (poke m np s a v) a' = peek m np s a' :=
+  t6_planes_independent m (table_wf m hm) hk np s a a' v hc hpar
 
 /-! ### the code before the repair -/
 
